@@ -15,7 +15,7 @@ import operator
 from ..astutil import dotted, norm, walk_local
 from ..core import Ctx, PropSpec, Unsupported
 from ..extract import where
-from ..harness import Harness
+from ..harness import Harness, cursor
 from ..interp import Raised
 
 CMP = "xtce/comparisons.py"
@@ -387,7 +387,7 @@ def consumers(ctx: Ctx, h: Harness):
                     pkt = h.packet(b"AAAAAAAA", {"ONE": h.val("Int", 1)})
                     k, got = h.outcome(f"{cls}({arg}=[{lk}]).parse_value(pkt)", ENC, pkt=pkt)
                     if k == "ok":
-                        got = pkt.attrs["raw_data"].attrs.get("pos")
+                        got = cursor(h, pkt.attrs["raw_data"])
                 if k != "ok" or got != want:
                     bad = (f"{cls}: lookup values {vals} with entries matching {[bool(x) for x in m]} gives length {got!r}; "
                            f"the first matching entry has value {want}")
@@ -477,6 +477,8 @@ def check(ctx: Ctx) -> None:
     # end to end: context calibrators / criteria of the second document of C01, also with DEBUG logging switched on
     from .c01 import end_to_end_second
     ctx.guard("R6.e2", "xtce/definitions.py", end_to_end_second, ctx, "R6.e2")
+    from .c01 import end_to_end_third
+    ctx.guard("R6.e3", "xtce/definitions.py", end_to_end_third, ctx, "R6.e3")
 
 
 def mutants(prog):
@@ -518,7 +520,7 @@ SPEC = PropSpec(
     pid="C06",
     title="Match criteria evaluate to the mathematical truth of their comparisons",
     check=check,
-    floors={"R6.1": 16, "R6.cmp": 25, "R6.cond": 54, "R6.bool": 40, "R6.lookup": 1, "R6.2": 4, "R6.pure": 4, "R6.consumer": 2, "R6.xml": 1, "R6.e2": 10},
+    floors={"R6.e3": 20, "R6.1": 16, "R6.cmp": 25, "R6.cond": 54, "R6.bool": 40, "R6.lookup": 1, "R6.2": 4, "R6.pure": 4, "R6.consumer": 2, "R6.xml": 1, "R6.e2": 10},
     explanation=("(1) Table rule R6.1: every accepted operator spelling maps to the relation it denotes. "
                  "(2) Taint rule R6.2: no truthiness test on a value read from the packet inside the evaluators. "
                  "(3) Decision tables by abstract interpretation of the evaluators' source over model packets and "
